@@ -208,7 +208,9 @@ class Composite(LexicalParent[Node], HasCreator, Node, ABC):
                 try:
                     receiving(firing)
                 except Exception as e:
-                    errors[receiving.full_label] = e
+                    # Keep the first error of a receiver: a failed child that gets
+                    # triggered again only refuses to run, which is not the cause
+                    errors.setdefault(receiving.full_label, e)
             except IndexError:
                 # The signal queue is empty, but there is still someone running...
                 sleep(self._child_sleep_interval)
